@@ -44,6 +44,7 @@ fn check_doc(ctx: &mut Ctx, rs: &RefSpec, doc: &Vec<Node>) {
     let base_calls = calls_for(doc, &[], false);
     let base = run_writer::<V>(&base_calls, Dest::default());
     ctx.transitions += base_calls.len() as u64 + 1;
+    ctx.outcome(&(base.out.len().min(300), base_calls.len(), base.results.iter().filter(|r| r.is_err()).count()));
     let mut done = false;
     if let Some((i, e)) = first_rejection(&base.results) {
         done = true;
@@ -121,6 +122,23 @@ fn check_doc(ctx: &mut Ctx, rs: &RefSpec, doc: &Vec<Node>) {
                 ctx.violation(if unk { "end-with-unknown-size-option/output-differs" } else { "end-with-width-option/output-differs" }, &d, &format!("results {:?} out {} vs {}", first_rejection(&r.results), hex(&r.out), hex(&base.out)));
             }
         }
+        // (f) the trailing Ends left to into_inner() (which ends every open master)
+        {
+            let mut calls = base_calls.clone();
+            let mut dropped = 0;
+            while matches!(calls.last(), Some(WCall::Tag(NItem::End(_), _))) {
+                calls.pop();
+                dropped += 1;
+            }
+            if dropped > 0 {
+                let r = run_writer::<V>(&calls, Dest::default());
+                ctx.transitions += calls.len() as u64 + 1;
+                ctx.count("closed_by_into_inner", 1);
+                if first_rejection(&r.results).is_some() || r.fin.is_err() || r.out != base.out {
+                    ctx.violation("closed-by-into_inner/output-differs-from-explicit-ends", &d, &format!("{} trailing End calls left to into_inner: results {:?} fin {:?} out {} vs {}", dropped, first_rejection(&r.results), r.fin, hex(&r.out), hex(&base.out)));
+                }
+            }
+        }
         // (iv) short-write schedules of the destination
         let total = base.out.len();
         let mut policies: Vec<Vec<usize>> = Vec::new();
@@ -173,7 +191,7 @@ pub fn run(ctx: &mut Ctx) {
     ctx.meta("rule", "cases: (tree, per-element options); trees = forests over V up to the node bound + deep spines + size-boundary documents (payload / master content of 124..128 and 16379..16384 bytes); options = every known/unknown choice of masters x deviations among size width 1..8 per master/leaf and payload class. For each case the real writer is driven with (a) Start/children/End, (b) EVERY way of collapsing masters into Full items, (c) the deprecated unknown-size call, (d) destinations that accept only a few bytes per write (all compositions for outputs <= 10 bytes, else <= 3 deviations, incl. Interrupted). Oracle: (b),(c),(d) byte-identical to (a); (a) walked with RefCodec guided by the tree: ids, payloads, order, size values == actual content lengths, requested width exact, unknown => all-ones, never the reserved all-ones for a known size; a width that cannot hold the size must be rejected with TagSizeError. Non-trivial: presentations whose call count differs from (a).");
     ctx.meta("bounds", &format!("forests <= {} elements, <= {} option deviations, all Full antichains", p.max_nodes, p.devs));
     ctx.meta("assumptions", "default (unrequested) size widths are not constrained beyond well-formedness || whether an explicit master width can hold its content is judged with minimal inner widths");
-    for c in ["ends_carrying_options", "full_presentations", "deprecated_unknown_presentations", "short_write_schedules", "explicit_width_too_small_rejected", "size_boundary_docs"] {
+    for c in ["closed_by_into_inner", "ends_carrying_options", "full_presentations", "deprecated_unknown_presentations", "short_write_schedules", "explicit_width_too_small_rejected", "size_boundary_docs"] {
         ctx.expect_nonzero(c);
     }
     docs::for_each_doc(ctx, &rs, &p, &mut |ctx, doc| {
